@@ -8,7 +8,9 @@
    (worktree with the fix: commits).  A character is its code (bytes 0..255 are fed as `b as char`).
 
    Outcome of one character: OOk m' (an action) | OErr m' (an error value; the machine continues from m') |
-   OPanic site | ODiverge (macro nesting deeper than the fuel: the real code recurses without bound).
+   ODeep m' (the error value ParserError::MacroNestingTooDeep: macro invocations nested deeper than MAX_MACRO_NESTING;
+   for the caller of print_char an error value like every other, the machine continues from m'; the replay loop of
+   invoke_macro_by_id is the one place that tells it from other errors: it ends the loop) | OPanic site.
 
    What is abstracted (none of it can influence geometry or a panic site):
    * colours: basic colours exact, extended colours (38/48;5;n, 38/48;2;r;g;b, CSI .. t) only up to "is palette index 0":
@@ -21,6 +23,7 @@
 From Coq Require Import ZArith NArith List Bool Lia.
 From IE Require Import Model.TermCore.
 From IE Require Lib.C17Lib Model.Font Model.Base64.      (* the BitFont model of C17 (load_custom_font, from_bytes); used qualified *)
+From IE Require Import Gen.MacroLimit.                    (* MAX_MACRO_NESTING, read from src/parsers/ansi/mod.rs by translator/gen_macro.py *)
 Import ListNotations.
 Local Open Scope Z_scope.
 
@@ -57,7 +60,7 @@ Record pst := mkPst {
   resized : bool }.              (* GHOST: a text-area resize (CSI 8;h;w t) has been executed; C09 speaks about streams without one *)
 
 Record amach := mkA { tm : term; ps : pst }.
-Inductive outcome := OOk (m : amach) | OErr (m : amach) | OPanic (site : Z) | ODiverge.
+Inductive outcome := OOk (m : amach) | OErr (m : amach) | OPanic (site : Z) | ODeep (m : amach).
 
 Definition set_st (p : pst) (s : estate) : pst :=
   mkPst s (nums p) (saved_pos p) (saved_cur p) (last_char p) (music_opt p) (bs_ctrl p) (octave p) (mlength p) (tempo p) (pstr p) (macro_dcs p) (macros p) (hlinks p) (bice p) (fonts p) (resized p).
@@ -305,13 +308,14 @@ Fixpoint hex_macro (s : list Z) (stt : hexst) (read_repeat : bool) (rep_rec : li
 Definition CTERM_FONT : list Z := [67; 84; 101; 114; 109; 58; 70; 111; 110; 116; 58].   (* "CTerm:Font:" *)
 (* Parser::load_custom_font: C17's model of the function (slot number, base64 payload, BitFont::from_bytes) decides
    between Ok (the slot becomes a key of the font table) and Err; parse_string and parsed_numbers stay as they are.
-   C17 proves that its model never yields Panic / Diverge (Props/C17.v dcs_total); they are mapped, not hidden. *)
+   C17 proves that its model never yields Panic / Diverge (Props/C17.v dcs_total; here: Proofs/FontDcsSafe.v); both are
+   mapped to the panic site SITE_FONT, not hidden. *)
 Definition load_custom_font (t : term) (p : pst) (s : list Z) : outcome :=
   match Font.load_custom_font Base64.decode (map Z.to_N s) with
   | C17Lib.Ok (slot, _) => ok t (set_fonts p (Z.of_N slot :: fonts p))
   | C17Lib.Err _ => err t p
   | C17Lib.Panic _ => OPanic SITE_FONT
-  | C17Lib.Diverge => ODiverge
+  | C17Lib.Diverge => OPanic SITE_FONT
   end.
 (* execute_dcs (state already Default) *)
 Definition execute_dcs (t : term) (p : pst) : outcome :=
@@ -666,7 +670,7 @@ Definition astep_gen (invoke : term -> pst -> Z -> outcome) (m : amach) (ch : Z)
   | SEndCsi f =>
     let d := dflt p in
     if f =? 42 then                                                               (* * *)
-      if ch =? 122 then match nums p with id :: _ => (match invoke t d id with OErr m1 => OOk m1 | o => o end) | [] => ok t d end
+      if ch =? 122 then match nums p with id :: _ => invoke t d id | [] => ok t d end      (* invoke_macro: `invoke_macro_by_id(..)?; Ok(Update)` *)
       else if ch =? 114 then ok t d                                               (* DECSCS: baud emulation not modelled *)
       else if ch =? 121 then match nums p with
                              | [_; _; pt; pl; pb; pr] =>
@@ -690,22 +694,27 @@ Definition astep_gen (invoke : term -> pst -> Z -> outcome) (m : amach) (ch : Z)
   | SDefault => step_default t p ch
   end.
 
-(* invoke_macro_by_id: feed the macro text through print_char, errors are logged and ignored *)
+(* invoke_macro_by_id, the replay loop: feed the macro text through print_char; an error is logged and ignored, except
+   MacroNestingTooDeep: it ends the loop (`break`) and is the result of the invocation *)
 Definition feed_macro (stepf : amach -> Z -> outcome) (body : list Z) (t0 : term) (p0 : pst) : outcome :=
   fold_left (fun acc c => match acc with
-                          | OOk m1 | OErr m1 => match stepf m1 c with OErr m2 => OOk m2 | o => o end
+                          | OOk m1 => match stepf m1 c with OErr m2 => OOk m2 | o => o end
                           | o => o end) body (ok t0 p0).
-(* [fuel] bounds the macro nesting depth (the real code recurses without bound: stack overflow) *)
+(* print_char with [fuel] = MAX_MACRO_NESTING - self.macro_nesting, the number of further nesting levels the counter of
+   the code admits: invoke_macro_by_id with the counter at the limit (fuel 0) returns Err(MacroNestingTooDeep) before it
+   touches anything; otherwise the counter is incremented around the replay loop (the replayed characters run with fuel - 1)
+   and decremented after it, whichever way the loop ends *)
 Fixpoint astep (fuel : nat) (m : amach) (ch : Z) : outcome :=
   astep_gen (fun t0 p0 id =>
                match lookup id (macros p0) with
                | None => ok t0 p0
                | Some body => match fuel with
-                              | O => ODiverge
+                              | O => ODeep (mkA t0 p0)
                               | S k => feed_macro (astep k) body t0 p0
                               end
                end) m ch.
 
-Definition MACRO_FUEL : nat := 32.
-Definition ansi_step (m : amach) (ch : Z) : outcome := astep MACRO_FUEL m ch.
+(* print_char as its callers see it: the counter is 0 whenever the parser is entered from outside (translator/gen_macro.py
+   pins that nothing else writes it), so every character starts with the full budget *)
+Definition ansi_step (m : amach) (ch : Z) : outcome := astep MAX_MACRO_NESTING m ch.
 Definition ansi_init (music : Z) (bs : bool) (w h : Z) : amach := mkA (init_term w h) (init_pst music bs).
